@@ -1,6 +1,7 @@
 import Pk.Parse
 import Pk.Inst
 import Pk.Lift
+import Pk.Predict
 /-! Line-protocol driver for the Mathlib-free model: one request per line on stdin, one reply per
 line on stdout.  The harness (`/verif/harness`) sends the same cases to the real pykoop and diffs. -/
 open Pk
@@ -85,6 +86,35 @@ def cmdRegArgs : P String := do
     let Xt := transformFlat (rowFn intOps) s nx X
     pure ("ok " ++ showMat toString (shiftUn Xt) ++ " | " ++ showMat toString (shiftSh (dropInputs w.2) Xt))
 
+def pKoop : P (List (List Int)) := do
+  let r ← pNat; let c ← pNat
+  pMany r (pMany c pInt)
+
+/-- `predict nx nu <stage> <K> <mat>` -/
+def cmdPredict : P String := do
+  let nx ← pNat; let nu ← pNat
+  let s ← pStage
+  let K ← pKoop
+  let X ← pMat pInt
+  withFit nx nu s fun _ => do
+    let p : Pipe Int Kind := ⟨s, (nx, nu), K⟩
+    pure ("ok " ++ showMat toString (predictFlat (rowFn intOps) p X))
+
+/-- `traj <relift> <lifted> <input> nx nu <stage> <K> <form 1|2> <mat X0orX> [<mat U>]` -/
+def cmdTraj : P String := do
+  let relift ← pBool; let lifted ← pBool; let inp ← pBool
+  let nx ← pNat; let nu ← pNat
+  let s ← pStage
+  let K ← pKoop
+  let form ← pNat
+  let X0 ← pMat pInt
+  let U ← if form == 2 then (do let u ← pMat pInt; pure (some u)) else pure none
+  withFit nx nu s fun _ => do
+    let p : Pipe Int Kind := ⟨s, (nx, nu), K⟩
+    match predictTrajectory (rowFn intOps) p relift lifted inp X0 U with
+    | .error _ => pure "err ValueError"
+    | .ok Y => pure ("ok " ++ showMat toString Y)
+
 def intCells : Cells Int := ⟨0, Int.toNat, Int.ofNat⟩
 
 def pRaw : P (Raw Int) := do
@@ -138,6 +168,8 @@ def dispatch : P String := do
   | "util" => cmdUtil
   | "lift" => cmdLift
   | "regargs" => cmdRegArgs
+  | "predict" => cmdPredict
+  | "traj" => cmdTraj
   | _ => throw s!"bad command {cmd}"
 
 def handle (line : String) : String :=
